@@ -10,8 +10,17 @@ CLAIMS = {
    technique="TLA+ transcription of the wrap / canonicalised-octahedral transforms model-checked exhaustively by TLC (6-bit words; q<=5/6), real classes run on anchored + sampled 32-bit tuples and all canonical pairs q<=7/8, every emitted observation trace-validated by TLC against the same operators at production width",
    text="TLC proves Level B => Level A (Invertible, CorrInRange) on the complete small domains; the real C++ classes are executed on the 32-bit image of those domains and on boundary-biased samples, and TLC evaluates the property predicates on the recorded observations (limb arithmetic at H=16). Exhaustive inside the stated bounds, sampled beyond.",
    note="Trusted: TLC, the Words limb arithmetic (cross-checked against integer arithmetic at H=3), the driver's record writer. Native pre-check only selects which observations are emitted."),
+ "C17": dict(
+   category="model_checking", design_ref="DESIGN.md §6 C17",
+   technique="TLA+ state machines of EncoderBuffer/DecoderBuffer, varint/zig-zag and rABS model-checked by TLC over every interleaving of <=4/5 writer calls and every bit string <=8/11 bits x every probability; call traces and primitive observations of the real classes trace-validated by TLC (Level A FIFO spec + mechanism spec), past-the-end reads under ASan",
+   text="TLC explores all interleavings of byte/varint/bit-mode writes with a mirrored reader (Mirror, SamePosition, NoOverrun) and the scaled rABS coder (StateRange, Lossless); recorded executions of the real buffers, all 8/16-bit varints, boundary 32/64-bit varints, five binary coders and every rabs step at production constants are accepted by the same specifications. Exhaustive within the bounds, sampled beyond; memory safety past the end is decided by ASan/UBSan.",
+   note="Trusted: TLC, the driver's record writer (values split into 16-bit limbs / base-128 digits by the driver's own arithmetic), ASan/UBSan for out-of-buffer accesses."),
+ "C08": dict(
+   category="model_checking", design_ref="DESIGN.md §6 C08",
+   technique="TLA+ specification of rANS (write/read/renormalisation, final-state classes), frequency normalisation and table serialisation model-checked by TLC at precision 4/8/16 over every table and symbol sequence; TLC-emitted rows replayed through the real RAnsEncoder/Decoder templates at the same precision; EncodeSymbols/DecodeSymbols observations trace-validated (lossless, exact consumption, fails cleanly)",
+   text="B => A by TLC on the complete small-precision domains; the same C++ templates that run at precision 12..20 in production are instantiated at precision 2/3 and compared row by row with TLC's behaviours; end-to-end symbol arrays over the property's distributions (each in a forked child) are validated by TLC against Level A, step records and normalised tables against Level B.",
+   note="Trusted: TLC; exact-integer model of the double-based normalisation (drift would be reported, none seen); forked-child crash attribution in the driver."),
 }
-
 NOT_YET = "check not built yet in this round (planned in DESIGN.md §6); no claim is made until its TLA+ spec and conformance harness exist"
 
 
